@@ -1,9 +1,22 @@
 /-
-  LedBytes — A WHOLE HISTORY THROUGH THE CONCRETE BYTE-LEVEL HANDLER (non-vacuity of `ledger_correct_on_bytes_bounded`).
-  The worked history of LedgerHistoryEx (G – B1 – B2, then the node switches to the sibling C2 of B2) with byte ids:
-  32 equal bytes for transaction / block hashes and addresses, 42 bytes for the wallet id, all read as Latin-1 text.
+  LedBytes — A WHOLE HISTORY THROUGH THE CONCRETE BYTE-LEVEL HANDLER: a fully evaluated instance of
+  `ledger_correct_on_bytes_bounded` (LedBytesTop).  The worked history of LedgerHistoryEx (G – B1 – B2, then the node
+  switches to the sibling C2 of B2) with byte ids: 32 equal bytes for transaction / block hashes and addresses (with the
+  Latin-1 naming `asciiNames` an address is its own script hash), 42 bytes for the wallet id.
+    (a) `xe xG xB1 xB2 xC2 xEvs`, `xRunHyp`          the history and the hypotheses of `ledger_correct`
+    (b) `xE xP xR xHEnvOf`                           a toy but lawful block-file / wire format: location = (number of the
+                                                     block in the block files, number of the transaction), serialization of
+                                                     a transaction = its index in `txTable`; keystore; `hashOf` = the inverse
+                                                     of the naming (`bytesOfName`)
+    (c) `xRE xHs xPb`                                filterTx on bytes (`relOracleOf`, LedBytesRel) over the block files of the
+                                                     node's chain (for chains of block-file blocks; else an oracle knowing nothing)
+    (d) `xBs0 xW0 xInvB0`                            the initial bytes (W1 ready, zero balance, synced to genesis)
+    (e) `xFit xBounds`                               the blocks fit, the chains satisfy the size bounds
+    (f) `xRun_*`, `xW3_facts` …, `xCorrect`          THE RUN evaluated by the kernel (`decide +kernel`, ≈ 3 s per fact), and the
+                                                     theorem applied to it
 -/
-import MW.Lemmas.LedBytesBounded
+import MW.Lemmas.LedBytesTop
+import MW.Lemmas.LedBytesRel
 import MW.Lemmas.LedgerHistoryEx
 namespace MW.LedBytes.Run
 open MW MW.Gen.Codec MW.Model.TxmgrCodec MW.TxmgrCodec MW.Model.Ledger MW.Spec.Chain MW.Spec.Books MW.Lemmas.Ledger
@@ -385,5 +398,219 @@ theorem xBounds : ∀ ch ∈ chainsOf xe (absW xE xW0) xEvs, ChainBounds xe.p xe
   · exact xBoundsB
   · exact xBoundsC
   · exact xBoundsC
+
+-- ------------------------------------------------------------------ (c) the relevance oracle: filterTx on bytes (LedBytesRel)
+
+def xBlocks : List Block := [xG, xB1, xB2, xC2]
+
+/-- the transactions of a block of the block files, read by its hash -/
+def xTxsB (b : Block) : List TxB := ((blkTable.find? (fun x => x.1 = bytesOfName b.id)).map (·.2)).getD []
+
+/-- the node's chain is made of blocks of the block files -/
+def KnownChain (chain : List Block) : Prop := ∀ x ∈ chain, AMap.get xe.known x.id = some x
+
+@[reducible] def blockDecEq : DecidableEq Block := fun a b =>
+  decidable_of_iff (a.id = b.id ∧ a.prev = b.prev ∧ a.height = b.height ∧ a.txs = b.txs)
+    ⟨fun h => by cases a; cases b; simp only at h; obtain ⟨h1, h2, h3, h4⟩ := h; subst h1 h2 h3 h4; rfl,
+     fun h => by subst h; exact ⟨rfl, rfl, rfl, rfl⟩⟩
+attribute [local instance] blockDecEq
+
+instance (chain : List Block) : Decidable (KnownChain chain) :=
+  inferInstanceAs (Decidable (∀ x ∈ chain, AMap.get xe.known x.id = some x))
+
+theorem xBlocks_of_known {chain : List Block} (h : KnownChain chain) {x : Block} (hx : x ∈ chain) : x ∈ xBlocks := by
+  rcases xKnown_cases (h x hx) with rfl | rfl | rfl | rfl <;> simp [xBlocks]
+
+theorem xTxsB_sim {b : Block} (h : b ∈ xBlocks) : b.txs = (xTxsB b).map (TxB.nm xE.N) := by
+  simp only [xBlocks, List.mem_cons, List.not_mem_nil, or_false] at h
+  rcases h with rfl | rfl | rfl | rfl <;> rfl
+
+theorem xTxsB_mem {b : Block} (h : b ∈ xBlocks) {t : TxB} (ht : t ∈ xTxsB b) : t ∈ txTable := by
+  simp only [xBlocks, List.mem_cons, List.not_mem_nil, or_false] at h
+  rcases h with rfl | rfl | rfl | rfl
+  · have e : xTxsB xG = [] := by rfl
+    rw [e] at ht; cases ht
+  · have e : xTxsB xB1 = [txC1] := by rfl
+    rw [e] at ht; simp at ht; subst ht; simp [txTable]
+  · have e : xTxsB xB2 = [txC2, txT1] := by rfl
+    rw [e] at ht; simp at ht; rcases ht with rfl | rfl <;> simp [txTable]
+  · have e : xTxsB xC2 = [txC3] := by rfl
+    rw [e] at ht; simp at ht; subst ht; simp [txTable]
+
+theorem txTable_fit : ∀ t ∈ txTable, OutsFit t := by
+  intro t ht
+  simp only [txTable, List.mem_cons, List.not_mem_nil, or_false] at ht
+  rcases ht with rfl | rfl | rfl | rfl | rfl <;> (unfold OutsFit; decide)
+
+theorem findSome_map {α β γ : Type} (l : List α) (f : α → Option β) (g : α → Option γ) (m : γ → β)
+    (h : ∀ a ∈ l, f a = (g a).map m) : l.findSome? f = (l.findSome? g).map m := by
+  induction l with
+  | nil => rfl
+  | cons a l ih =>
+    simp only [List.findSome?_cons]
+    rw [h a List.mem_cons_self]
+    cases g a with
+    | some x => rfl
+    | none => exact ih (fun x hx => h x (List.mem_cons_of_mem _ hx))
+
+/-- FetchTxBySha on the block files of the node's chain -/
+def xFetchTxB (chain : List Block) (h : Bytes) : Option TxB :=
+  chain.reverse.findSome? (fun b => (xTxsB b).find? (fun t => t.hash = h))
+
+theorem xFetchTx_sim {chain : List Block} (hk : KnownChain chain) (h : Bytes) :
+    (xe.ctx chain).node.fetchTx (xE.N.tx h) = (xFetchTxB chain h).map (TxB.nm xE.N) := by
+  unfold xFetchTxB
+  show chain.reverse.findSome? (fun b => b.txs.find? (fun t => t.id = xE.N.tx h)) = _
+  apply findSome_map
+  intro b hb
+  have hd := xBlocks_of_known hk (List.mem_reverse.1 hb)
+  rw [xTxsB_sim hd]
+  exact find_by_hash xE.N (xTxsB b) h
+
+theorem xFetchTx_mem {chain : List Block} (hk : KnownChain chain) {h : Bytes} {t : TxB}
+    (ht : xFetchTxB chain h = some t) : t ∈ txTable := by
+  unfold xFetchTxB at ht
+  obtain ⟨b, hb, hf⟩ := List.exists_of_findSome?_eq_some ht
+  exact xTxsB_mem (xBlocks_of_known hk (List.mem_reverse.1 hb)) (List.mem_of_find?_eq_some hf)
+
+/-- the location of transaction `i` of a block of the block files -/
+def xLocB (b : Block) (i : Nat) : TxLocB :=
+  ⟨(blkTable.findIdx? (fun x => x.1 = bytesOfName b.id)).getD 0, 0, 0, i, 0⟩
+
+theorem xLocB_sim {b : Block} (h : b ∈ xBlocks) {i : Nat} (hi : i < b.txs.length) :
+    (xLocB b i).WF = true ∧ xE.loc (xLocB b i) = (b.id, i) := by
+  simp only [xBlocks, List.mem_cons, List.not_mem_nil, or_false] at h
+  rcases h with rfl | rfl | rfl | rfl
+  · cases hi
+  · have : i = 0 := by simp [xB1, txsOf] at hi; exact hi
+    subst this; exact ⟨by decide, by rfl⟩
+  · have : i = 0 ∨ i = 1 := by simp [xB2, txsOf] at hi; omega
+    rcases this with rfl | rfl <;> exact ⟨by decide, by rfl⟩
+  · have : i = 0 := by simp [xC2, txsOf] at hi; exact hi
+    subst this; exact ⟨by decide, by rfl⟩
+
+theorem xsh_wf (a : Bytes) (x : Bytes × Bool) (h : xownA a = some x) : a.length = 32 ∧ xE.N.sh a = xE.N.adr a := by
+  unfold xownA at h
+  split at h
+  · rename_i ha
+    rcases ha with rfl | rfl <;> exact ⟨by decide, rfl⟩
+  · cases h
+
+def xRE (chain : List Block) (hk : KnownChain chain) : RelEnv xE (xe.ctx chain) where
+  P := xP
+  dom b := b ∈ xBlocks
+  txsB := xTxsB
+  txs_sim _ hd := xTxsB_sim hd
+  txs_wf _ h t ht := ⟨txTable_wf t (xTxsB_mem h ht), txTable_fit t (xTxsB_mem h ht)⟩
+  fetchTxB := xFetchTxB chain
+  fetch_sim := xFetchTx_sim hk
+  fetch_wf _ t ht := ⟨txTable_wf t (xFetchTx_mem hk ht), txTable_fit t (xFetchTx_mem hk ht)⟩
+  pend_amt ser := txTable_fit _ (deserB_mem ser)
+  shOf a := a
+  sh_wf := xsh_wf
+  locB := xLocB
+  loc_sim _ _ hd hi := xLocB_sim hd hi
+
+/-- an oracle that knows no block (for node chains outside the block files: never used by a history satisfying `RunHyp`) -/
+def xNoOracle (c : Ctx) : RelOracle xE c where
+  dom _ := False
+  rel _ _ _ := pure []
+  unrel _ _ _ _ := []
+  rel_sim _ _ _ h := h.elim
+  rel_ok _ _ _ _ h := h.elim
+  unrel_sim _ _ _ _ h := h.elim
+  unrel_ok _ _ _ _ h := h.elim
+
+def xHs (chain : List Block) : HEnv xE (xe.ctx chain) :=
+  if hk : KnownChain chain then xHEnvOf chain (relOracleOf (xRE chain hk)) else xHEnvOf chain (xNoOracle _)
+
+/-- THE CONCRETE HANDLER of the example -/
+abbrev xPb : PbB := pbBOf xHs
+
+theorem xHs_known {chain : List Block} (hk : KnownChain chain) :
+    xHs chain = xHEnvOf chain (relOracleOf (xRE chain hk)) := by
+  unfold xHs; rw [dif_pos hk]
+
+/-- every block of the block files fits (while the node's chain is made of blocks of the block files) -/
+theorem xFit : ∀ chain, (∀ x ∈ chain, AMap.get xe.known x.id = some x) →
+    ∀ id x, AMap.get xe.known id = some x → BlkFit (xHs chain) x := by
+  intro chain hk id x hx
+  rw [xHs_known hk]
+  have hm : x ∈ xBlocks := by rcases xKnown_cases hx with rfl | rfl | rfl | rfl <;> simp [xBlocks]
+  refine ⟨hm, ?_⟩
+  show (bytesOfName x.id).length = 32 ∧ nm (bytesOfName x.id) = x.id ∧ x.height + 1 < collisionHeight ∧
+    xTime < 256 ^ 8 ∧ xTime < 256 ^ 4
+  rcases xKnown_cases hx with rfl | rfl | rfl | rfl
+  · exact ⟨by rw [show xG.id = nm hG from rfl, bytesOfName_nm]; decide,
+      by rw [show xG.id = nm hG from rfl, bytesOfName_nm], by decide, by decide, by decide⟩
+  · exact ⟨by rw [show xB1.id = nm hB1 from rfl, bytesOfName_nm]; decide,
+      by rw [show xB1.id = nm hB1 from rfl, bytesOfName_nm], by decide, by decide, by decide⟩
+  · exact ⟨by rw [show xB2.id = nm hB2 from rfl, bytesOfName_nm]; decide,
+      by rw [show xB2.id = nm hB2 from rfl, bytesOfName_nm], by decide, by decide, by decide⟩
+  · exact ⟨by rw [show xC2.id = nm hC2 from rfl, bytesOfName_nm]; decide,
+      by rw [show xC2.id = nm hC2 from rfl, bytesOfName_nm], by decide, by decide, by decide⟩
+
+-- ------------------------------------------------------------------ (f) THE RUN, evaluated
+
+/-- the world after the first `n` events -/
+def xWn (n : Nat) : WorldB := runWB xPb xW0 (xEvs.take n)
+/-- the final world -/
+def xW6 : WorldB := runWB xPb xW0 xEvs
+
+theorem xRun_queue : (runWB xPb xW0 xEvs).queue = [] := by decide +kernel
+theorem xRun_chain : (runWB xPb xW0 xEvs).chain = [xG, xB1, xC2] := rfl
+theorem xRun_best : (runWB xPb xW0 xEvs).v.best = ⟨2, nm hC2⟩ := by decide +kernel
+
+/-- the 8 bytes under W1 in bucket `bal`: 100 = coinbase C1 (50, unspent again after the reorganisation) + coinbase C3 (50) -/
+theorem xRun_bal : AMap.get (runWB xPb xW0 xEvs).bs.bal wW1 = some (valueBalance 100) := by decide +kernel
+theorem xRun_bal_bytes : AMap.get (runWB xPb xW0 xEvs).bs.bal wW1 = some [0, 0, 0, 0, 0, 0, 0, 100] := by decide +kernel
+theorem xRun_cursor : syncedToOf (runWB xPb xW0 xEvs).bs.sync = 2 := by decide +kernel
+theorem xRun_sizes : (runWB xPb xW0 xEvs).bs.c.length = 2 ∧ (runWB xPb xW0 xEvs).bs.u.length = 2 ∧
+    (runWB xPb xW0 xEvs).bs.t.length = 2 ∧ (runWB xPb xW0 xEvs).bs.b.length = 2 ∧ (runWB xPb xW0 xEvs).bs.d.length = 0 := by
+  decide +kernel
+/-- T1 (confirmed in B2, which the node left) is back in the pending set, with its input and its credit -/
+theorem xRun_pending : (runWB xPb xW0 xEvs).bs.m.map (·.1) = [tT1] ∧
+    (pendTxB xP (runWB xPb xW0 xEvs).bs.m tT1).map TxB.ser = some txT1.ser ∧
+    (runWB xPb xW0 xEvs).bs.mi.map (·.1) = [canonicalOutPoint ⟨tC1, 0⟩] ∧
+    (runWB xPb xW0 xEvs).bs.mc.map (·.1) = [canonicalOutPoint ⟨tT1, 1⟩] := by
+  decide +kernel
+
+-- the worlds in between (`xWn n` = the world after `n` events; each is one step of the one before)
+theorem runWB_snoc (pb : PbB) (w : WorldB) (l : List Ev) (ev : Ev) :
+    runWB pb w (l ++ [ev]) = stepWB pb (runWB pb w l) ev := by
+  simp [runWB, List.foldl_append]
+
+theorem xW_steps : xWn 0 = xW0 ∧ xWn 1 = stepWB xPb (xWn 0) (.extend xB1) ∧ xWn 2 = stepWB xPb (xWn 1) (.extend xB2) ∧
+    xWn 3 = stepWB xPb (xWn 2) .handle ∧ xWn 4 = stepWB xPb (xWn 3) .handle ∧
+    xWn 5 = stepWB xPb (xWn 4) (.reorgTo 1 [xC2]) ∧ xWn 6 = stepWB xPb (xWn 5) .handle ∧ xWn 6 = xW6 :=
+  ⟨rfl, runWB_snoc xPb xW0 (xEvs.take 0) _, runWB_snoc xPb xW0 (xEvs.take 1) _, runWB_snoc xPb xW0 (xEvs.take 2) _,
+   runWB_snoc xPb xW0 (xEvs.take 3) _, runWB_snoc xPb xW0 (xEvs.take 4) _, runWB_snoc xPb xW0 (xEvs.take 5) _, rfl⟩
+
+theorem xW2_queue : (xWn 2).queue = [xB1, xB2] := rfl
+theorem xW3_facts : AMap.get (xWn 3).bs.bal wW1 = some (valueBalance 50) ∧ syncedToOf (xWn 3).bs.sync = 1 ∧
+    (xWn 3).bs.c.length = 1 ∧ (xWn 3).v.best = ⟨1, nm hB1⟩ := by decide +kernel
+theorem xW4_facts : AMap.get (xWn 4).bs.bal wW1 = some (valueBalance 30) ∧ syncedToOf (xWn 4).bs.sync = 2 ∧
+    (xWn 4).bs.c.length = 2 ∧ (xWn 4).bs.u.length = 1 ∧ (xWn 4).bs.d.length = 1 ∧ (xWn 4).bs.m.length = 0 ∧
+    (xWn 4).v.best = ⟨2, nm hB2⟩ := by decide +kernel
+theorem xW5_queue : (xWn 5).queue.map (·.id) = [nm hC2] ∧ (xWn 5).chain.map (·.id) = [nm hG, nm hB1, nm hC2] := by decide +kernel
+
+-- ------------------------------------------------------------------ the theorem on this instance
+
+/-- **`ledger_correct_on_bytes_bounded` APPLIED**: all its hypotheses hold for the worked history, so the evaluated run on
+    bytes abstracts to the run of the ledger model, and the final bytes are canonical and decode to exactly the books of the
+    node's new best chain G – B1 – C2 -/
+theorem xCorrect :
+    absW xE (runWB xPb xW0 xEvs) = runW xe (absW xE xW0) xEvs ∧
+    InvB xE (xe.ctx [xG, xB1, xC2]) (runWB xPb xW0 xEvs).bs [xG, xB1, xC2] ∧
+    (runWB xPb xW0 xEvs).v.best = tipMeta [xG, xB1, xC2] := by
+  unfold xPb
+  have h := ledger_correct_on_bytes_bounded xe xG xHs xW0 xEvs xRunHyp xBounds xFit xInvB0 xBest0 xQueue0
+  have h2 := h.2 xRun_queue
+  have hc : (runWB (pbBOf xHs) xW0 xEvs).chain = [xG, xB1, xC2] := xRun_chain
+  rw [hc] at h2
+  exact ⟨h.1, h2⟩
+
+/-- … hence (invB_balance) the balance bytes are the big-endian total the chain pays W1 — the value computed above -/
+example : totalU (bookOf xe.p xe.own [xG, xB1, xC2]).L (nm wW1) = 100 := by decide
 
 end MW.LedBytes.Run
